@@ -264,6 +264,12 @@ def check(ctx):
         and pmatch("(_N, _C.copy())", ys[0].value) is not None and [text(e) for e in enclosing_loop(md, ys[0]).target.elts] == \
         [text(pmatch("(_N, _C.copy())", ys[0].value)["_N"]), text(pmatch("(_N, _C.copy())", ys[0].value)["_C"])] and md.node.body.index(_top_stmt(md, ys[0])) == min(
             md.node.body.index(_top_stmt(md, y)) for y in ys)
+    cond0 = [(k, t) for k, t in (facts_at(md, ys[0]) if ys else []) if not t.startswith("iter:")]
+    if ok and cond0:
+        ctx.ob("DUP", md, f"existing columns yielded under {cond0}", ys[0], False,
+               f"an existing column is handed on only when {cond0}: a column that is replaced is skipped in the first pass, so it "
+               f"leaves its position and reappears after all other columns -- column order (and every positional access) changes",
+               clause="column names keep their order; modify replaces same-named columns in place")
     ctx.ob("DUP", md, "own columns first, then the new ones", ys[0] if ys else md.node, ok,
            "existing columns keep their position; a same-named new column replaces the value" if ok else
            "modify does not yield the receiver's columns first", clause="modify replacing same-named columns")
